@@ -4,6 +4,7 @@ import json, os, re
 
 VERIF = os.path.dirname(os.path.abspath(__file__))
 DEFAULT_ENUMS = ['bloc::EXC_RT', 'bloc::Type::TypeMajor']
+DEFAULT_STRUCTS = ['bloc::RuntimeError', 'bloc::Value']
 
 # ---- mangled names used all over ----
 VCALL_VALUE   = 'VCALL_Expression_value'
@@ -24,6 +25,7 @@ OPSYM = {'op_band': '({0} and {1})', 'op_bior': '({0} or {1})', 'op_bxor': '({0}
          'op_add': '({0} + {1})', 'op_sub': '({0} - {1})', 'op_mul': '({0} * {1})', 'op_div': '({0} / {1})', 'op_mod': '({0} % {1})',
          'op_exp': '({0} ** {1})', 'op_neg': '(-{0})', 'op_pos': '(+{0})', 'op_eq': '({0} == {1})', 'op_ne': '({0} != {1})',
          'op_lt': '({0} < {1})', 'op_le': '({0} <= {1})', 'op_gt': '({0} > {1})', 'op_ge': '({0} >= {1})'}
+CONST_CTOR_SUFFIX = {'NULLExpression': 'C2Ev', 'TRUEExpression': 'C2Ev', 'FALSEExpression': 'C2Ev', 'PIExpression': 'C2Ev', 'EEExpression': 'C2Ev', 'PHIExpression': 'C2Ev', 'IntegerExpression': 'C2El', 'NumericExpression': 'C2Ed', 'BooleanExpression': 'C2Eb'}
 UNARY = ('op_bnot', 'op_not', 'op_neg', 'op_pos')
 
 def op(name, cls, props, contract=None, **kw):
@@ -53,6 +55,16 @@ def all_jobs():
     for n, c in (('op_eq', 'OpEQExpression'), ('op_ne', 'OpNEExpression'), ('op_lt', 'OpLTExpression'), ('op_le', 'OpLEExpression'),
                  ('op_gt', 'OpGTExpression'), ('op_ge', 'OpGEExpression')):
         J.append(op(n, c, ['C01', 'C02', 'C04', 'C05'], weight=5))
+    for cls in ('NULLExpression', 'TRUEExpression', 'FALSEExpression', 'PIExpression', 'EEExpression', 'PHIExpression', 'IntegerExpression', 'NumericExpression'):
+        n = len(cls)
+        lit = cls in ('IntegerExpression', 'NumericExpression')
+        for kind, mg in (('ctor', '_ZN4bloc%d%s%s' % (n, cls, 'C2EONS_5ValueE' if lit else 'C2Ev')), ('value', '_ZNK4bloc%d%s5valueERNS_7ContextE' % (n, cls))):
+            rep = [V_CLEAR] + ([V_MOVE_CTOR] if lit else [])
+            src = 'blocc/expression_builtin.cpp'
+            if lit:
+                src = 'blocc/parse_expression.cpp' if kind == 'ctor' else ('blocc/expression_integer.cpp' if cls == 'IntegerExpression' else 'blocc/expression_numeric.cpp')
+            J.append(dict(id='const_%s_%s' % (cls, kind), src=src, contract='const_%s.c' % cls, enforce=mg, roots=[mg], replace=rep,
+                          cut=rep + [RTE_CTOR, RTE_CTOR_S], props=['C01', 'C02', 'C04', 'C05'], pretty='bloc::%s::%s' % (cls, kind), canaries=['normal']))
     return J
 
 def known_findings():
